@@ -99,13 +99,13 @@ class GateDomain(Domain):
     def subscript_store(self, objval, idxval, value, node, state):
         if isinstance(objval, Meta) and isinstance(idxval, Const):
             self.events.append(("meta-store", idxval.v, value, node))
-            return state.set("ev", state.get("ev", ()) + (("meta-store", idxval.v, _vkey(value)),))
+            return state.set("#ev", state.get("#ev", ()) + (("meta-store", idxval.v, _vkey(value)),))
         if objval == Opaque("self._failed_clients"):
             self.events.append(("failed-store", idxval, value, node))
-            return state.set("ev", state.get("ev", ()) + (("failed-store", _vkey(idxval), _vkey(value)),))
+            return state.set("#ev", state.get("#ev", ()) + (("failed-store", _vkey(idxval), _vkey(value)),))
         if objval == Opaque("self._dead_clients"):
             self.events.append(("dead-store", idxval, value, node))
-            return state.set("ev", state.get("ev", ()) + (("dead-store", _vkey(idxval), _vkey(value)),))
+            return state.set("#ev", state.get("#ev", ()) + (("dead-store", _vkey(idxval), _vkey(value)),))
         return state
 
     def make_dict(self, keys, values, node, state):
@@ -183,7 +183,7 @@ class GateDomain(Domain):
         return None
 
     def _ev(self, state, *ev):
-        return state.set("ev", state.get("ev", ()) + (tuple(ev),))
+        return state.set("#ev", state.get("#ev", ()) + (tuple(ev),))
 
     def call(self, node, fval, args, kwargs, state):
         name = call_name(node)
@@ -231,7 +231,7 @@ class GateDomain(Domain):
                     return res
         return [("ok", TOP, state)]
 
-    global_keys = ("ev", "rearmed", "deleted", "scanned")
+    global_keys = ("#ev", "#rearmed", "#deleted", "#scanned")
 
     def for_next(self, node, itval, state):
         return [(TOP, state)]
@@ -261,7 +261,7 @@ def run(chk):
                 continue
             cfg = dict(in_failed=in_failed, delta=delta, elapsed=elapsed, outcome=outcome, ignore_exc=ign)
             dom = GateDomain(prog, f, cfg)
-            outs = Interp(dom, f.node, prog).run(Env({"ev": (), "default_val": Opaque("default_val")}))
+            outs = Interp(dom, f.node, prog).run(Env({"#ev": (), "default_val": Opaque("default_val")}))
             n_rows += 1
             for construct, msg, node in dom.problems:
                 r1.fail("HashClient.%s:%s" % (mname, construct), msg, fn=f, node=node)
@@ -272,7 +272,7 @@ def run(chk):
                 bad.setdefault("not-deterministic", (cfg, "%d exits" % len(exits)))
                 continue
             kind, s, v, t = exits[0]
-            ev = [e for e in s.get("ev", ())]
+            ev = [e for e in s.get("#ev", ())]
             names = [e[0] for e in ev]
             gate = None
             if in_failed:
@@ -362,13 +362,13 @@ def run(chk):
         cfg = dict(in_failed=in_failed, R_value=1 if rpos else 0, delta=0)
         dom = GateDomain(prog, mf, cfg)
         dom.attr_load_orig = dom.attr_load
-        outs = Interp(dom, mf.node, prog).run(Env({"ev": (), mf.pos_params()[0].name: Opaque("server")}))
+        outs = Interp(dom, mf.node, prog).run(Env({"#ev": (), mf.pos_params()[0].name: Opaque("server")}))
         exits = outs.of("ret") + [(s, v, t) for s, v, t in outs.of("exc")]
         if len(exits) != 1 or outs.of("exc"):
             r3.fail("HashClient._mark_failed_server:row:%s:%s" % (in_failed, rpos), "_mark_failed_server does not complete normally for (failing=%s, retries configured=%s)" % (in_failed, rpos), fn=mf)
             continue
         s = exits[0][0]
-        ev = list(s.get("ev", ()))
+        ev = list(s.get("#ev", ()))
         names = [e[0] for e in ev]
         problems = []
         if not in_failed:
@@ -426,35 +426,35 @@ def run(chk):
     r4 = chk.rule("C13.R4", "eviction and revival update hasher, dead set and failing set together; the dead scan runs, re-adds and re-arms only when dead_timeout has elapsed")
     rs = prog.method(hc, "remove_server")
     dom = GateDomain(prog, rs, dict(in_failed=True, delta=0))
-    outs = Interp(dom, rs.node, prog).run(Env({"ev": (), rs.pos_params()[0].name: Opaque("server"), "port": NONE}))
+    outs = Interp(dom, rs.node, prog).run(Env({"#ev": (), rs.pos_params()[0].name: Opaque("server"), "port": NONE}))
     for s, v, t in outs.of("ret"):
-        names = [e[0] for e in s.get("ev", ())]
+        names = [e[0] for e in s.get("#ev", ())]
         ok = names.count("remove_node") == 1 and names.count("dead-store") == 1 and names.count("forget") == 1
         r4.expect(ok, "remove_server: hasher.remove_node + _dead_clients[server] = now + _failed_clients.pop(server)", "HashClient.remove_server:coupled-update", "remove_server performs %s: the node must leave the hasher, enter the dead set and leave the failing set together" % names, fn=rs, witness=fmt_trace(t))
-        ds = [e for e in s.get("ev", ()) if e[0] == "dead-store"]
+        ds = [e for e in s.get("#ev", ()) if e[0] == "dead-store"]
         if ds:
             r4.expect(ds[0][1] == Opaque("server") and ds[0][2] == lin("now"), "dead time is time.time() under the server", "HashClient.remove_server:dead-time", "the eviction time recorded is %s under %s" % (ds[0][2], ds[0][1]), fn=rs)
     rd = prog.method(hc, "_retry_dead")
     for outer, inner in itertools.product((False, True), (False, True)):
         cfg = dict(in_failed=False, delta=0, elapsed_deadcheck=outer, elapsed_dead=inner)
         dom = _RetryDeadDomain(prog, rd, cfg)
-        outs = Interp(dom, rd.node, prog).run(Env({"ev": ()}))
+        outs = Interp(dom, rd.node, prog).run(Env({"#ev": ()}))
         for construct, msg, node in dom.problems:
             r4.fail("HashClient._retry_dead:%s" % construct, msg, fn=rd, node=node)
         for s, v, t in outs.of("ret"):
-            ev = list(s.get("ev", ()))
+            ev = list(s.get("#ev", ()))
             names = [e[0] for e in ev]
-            rearm = s.get("rearmed", False)
+            rearm = s.get("#rearmed", False)
             if not outer:
                 r4.expect(not names and not rearm, "_retry_dead: nothing happens before dead_timeout has elapsed since the last scan", "HashClient._retry_dead:acts-before-timeout", "before dead_timeout has elapsed since the last scan _retry_dead already %s: %s" % ("re-arms _last_dead_check_time" if rearm else "acts", "the scan is postponed on every call, so with steady traffic an evicted server that has recovered is never brought back" if rearm else names), fn=rd, witness=fmt_trace(t))
             else:
                 r4.expect(rearm, "_retry_dead re-arms the scan time after a scan", "HashClient._retry_dead:no-rearm", "after a scan _last_dead_check_time is not updated", fn=rd)
-                if not s.get("scanned", False):
+                if not s.get("#scanned", False):
                     r4.fail("HashClient._retry_dead:no-scan", "after dead_timeout has elapsed the dead set is not scanned", fn=rd, witness=fmt_trace(t))
                     continue
                 if inner:
-                    ok = names.count("revive") >= 1 and s.get("deleted", 0) >= 1
-                    r4.expect(ok, "_retry_dead: a server dead for longer than dead_timeout is re-added and leaves the dead set", "HashClient._retry_dead:revival", "a server whose dead_timeout has elapsed is not (re-added and removed from the dead set): %s, deletions %s" % (names, s.get("deleted", 0)), fn=rd, witness=fmt_trace(t))
+                    ok = names.count("revive") >= 1 and s.get("#deleted", 0) >= 1
+                    r4.expect(ok, "_retry_dead: a server dead for longer than dead_timeout is re-added and leaves the dead set", "HashClient._retry_dead:revival", "a server whose dead_timeout has elapsed is not (re-added and removed from the dead set): %s, deletions %s" % (names, s.get("#deleted", 0)), fn=rd, witness=fmt_trace(t))
                 else:
                     # the inner loop may run 0 times or the test fails: no revival allowed
                     r4.expect("revive" not in names, "_retry_dead: a server dead for less than dead_timeout stays out", "HashClient._retry_dead:early-revival", "a server is re-added before its dead_timeout has elapsed", fn=rd, witness=fmt_trace(t))
@@ -502,7 +502,7 @@ class _RetryDeadDomain(GateDomain):
 
     def attr_store(self, objval, node, value, state):
         if is_self_attr(node, "_last_dead_check_time"):
-            return state.set("rearmed", True)
+            return state.set("#rearmed", True)
         return state
 
     def make_list(self, items, node, state):
@@ -530,7 +530,7 @@ class _RetryDeadDomain(GateDomain):
         if itval == Opaque("dead-items"):
             if state.get(k, False):
                 return []
-            return [(TupleV((Opaque("dead-server"), lin("dead_time"))), state.set(k, True).set("scanned", True))]
+            return [(TupleV((Opaque("dead-server"), lin("dead_time"))), state.set(k, True).set("#scanned", True))]
         if itval == self.NONEMPTY:
             if state.get(k, False):
                 return []
@@ -553,7 +553,7 @@ class _RetryDeadDomain(GateDomain):
 
     def subscript_store(self, objval, idxval, value, node, state):
         if objval == Opaque("self._dead_clients") and value is None:
-            return state.set("deleted", state.get("deleted", 0) + 1)
+            return state.set("#deleted", state.get("#deleted", 0) + 1)
         return super().subscript_store(objval, idxval, value, node, state)
 
 
